@@ -74,12 +74,49 @@ func releasedOnAllExits(fn *ssa.Function, acquire ssa.Instruction, isRelease fun
 }
 
 func isCloseOn(ci ssa.CallInstruction, isRecv func(ssa.Value) bool) bool {
+	return isCloseOnD(ci, isRecv, 0)
+}
+
+func isCloseOnD(ci ssa.CallInstruction, isRecv func(ssa.Value) bool, depth int) bool {
 	cc := ci.Common()
 	if cc.IsInvoke() && cc.Method.Name() == "Close" {
 		return isRecv(cc.Value)
 	}
-	if f := cc.StaticCallee(); f != nil && f.Name() == "Close" && len(cc.Args) > 0 {
+	f := cc.StaticCallee()
+	if f == nil {
+		return false
+	}
+	if f.Name() == "Close" && len(cc.Args) > 0 {
 		return isRecv(cc.Args[0])
+	}
+	// a first-party helper that is handed the value and closes it on every path
+	if depth > 1 || !IsFirstParty(f) || f.Blocks == nil {
+		return false
+	}
+	for i, a := range cc.Args {
+		if i >= len(f.Params) || !isRecv(a) {
+			continue
+		}
+		p := f.Params[i]
+		marker := func(in ssa.Instruction) bool {
+			x, ok := in.(ssa.CallInstruction)
+			if !ok {
+				return false
+			}
+			if _, isGo := in.(*ssa.Go); isGo {
+				return false
+			}
+			return isCloseOnD(x, func(v ssa.Value) bool { return strip(v) == ssa.Value(p) }, depth+1)
+		}
+		all := true
+		for _, r := range returnsOf(f) {
+			if reachFromWithoutMarkerAvoiding(f.Blocks[0], r, marker, nil) {
+				all = false
+			}
+		}
+		if all {
+			return true
+		}
 	}
 	return false
 }
@@ -139,9 +176,11 @@ func c11Backend(c *Ctx) {
 		if target == nil {
 			return
 		}
-		for _, ci := range callsIn(target) {
-			if isCloseOn(ci, func(v ssa.Value) bool { return isFieldLoad(strip(v), rwcF) }) {
-				closer, deferInstr = target, d
+		for _, sf := range scopeFuncs(target, 1) {
+			for _, ci := range callsIn(sf) {
+				if isCloseOn(ci, func(v ssa.Value) bool { return isFieldLoad(strip(v), rwcF) }) {
+					closer, deferInstr = target, d
+				}
 			}
 		}
 	})
@@ -234,7 +273,12 @@ func c11ClientTransports(c *Ctx) {
 		}
 	}
 	ws := c.Fn("cmd/rdpgw/protocol", "Gateway.handleWebsocketProtocol")
-	for _, ci := range callsTo(ws, modPath+"/cmd/rdpgw/transport.NewWS") {
+	for _, st := range c.findSteps(ws, modPath+"/cmd/rdpgw/transport.NewWS") {
+		var ci ssa.CallInstruction = st.siteIn() // the constructor, or the helper of the handler that wraps it
+		if len(st.via) > 0 && !returnsResultOf(st.call.Parent(), st.call, 0) || len(st.via) > 1 {
+			c.Undecided(rule, "handleWebsocketProtocol transport", st.Pos(), "the websocket transport is built in a helper whose result is not simply the constructor's")
+			continue
+		}
 		tr := resultOf(ci, 0)
 		ok, where := releasedOnAllExits(ws, ci.(ssa.Instruction), func(x ssa.CallInstruction) bool {
 			return isCloseOn(x, func(v ssa.Value) bool { return strip(v) == tr })
@@ -378,6 +422,15 @@ func c11Registry(c *Ctx) {
 	rem := c.Fn("cmd/rdpgw/protocol", "RemoveTunnel")
 	keyOf := func(fn *ssa.Function) string {
 		k := ""
+		for _, sf := range scopeFuncs(fn, 1) {
+			eachInstr(sf, func(in ssa.Instruction) {
+				keyOfInstr(in, &k)
+			})
+		}
+		return k
+	}
+	_ = func(fn *ssa.Function) string {
+		k := ""
 		eachInstr(fn, func(in ssa.Instruction) {
 			switch x := in.(type) {
 			case *ssa.MapUpdate:
@@ -432,4 +485,38 @@ func c11Gauges(c *Ctx) {
 	if n < 2 {
 		c.Undecided(rule, "gauge sites", token.NoPos, "%d Inc sites (2 confirmed by hand)", n)
 	}
+}
+
+func keyOfInstr(in ssa.Instruction, k *string) {
+	switch x := in.(type) {
+	case *ssa.MapUpdate:
+		if _, f, ok := fieldLoad(strip(x.Key)); ok {
+			*k = f.Name()
+		}
+	case *ssa.Call:
+		if b, ok := x.Call.Value.(*ssa.Builtin); ok && b.Name() == "delete" {
+			if _, f, ok := fieldLoad(strip(x.Call.Args[1])); ok {
+				*k = f.Name()
+			}
+		}
+	}
+}
+
+// returnsResultOf: every return of helper yields, as its result idx, result idx of call (or a
+// nil/zero placeholder).
+func returnsResultOf(helper *ssa.Function, call *ssa.Call, idx int) bool {
+	want := resultOf(call, idx)
+	for _, r := range returnsOf(helper) {
+		if idx >= len(r.Results) {
+			return false
+		}
+		v := strip(unspill(r.Results[idx]))
+		if k, isC := v.(*ssa.Const); isC && (k.Value == nil || k.IsNil() || isZeroConst(k)) {
+			continue
+		}
+		if v != want && v != ssa.Value(call) {
+			return false
+		}
+	}
+	return true
 }
